@@ -175,6 +175,15 @@ def marginal {K S} (π : Fin S → α) (props : Fin K → α) (mats : Mats α K 
 def stateVec {S} (state : Nat) : Fin S → α :=
   fun j => if state < S then (if j.val = state then 1 else 0) else 1
 
+/-! ### JC69 in closed form (so that one family of cases runs in Lean with no matrix from torch) -/
+
+/-- `JC69.p_t`: `a = 1/4 + 3/4·e^{-4d/3}` on the diagonal, `b = 1/4 − 1/4·e^{-4d/3}` elsewhere -/
+def jc69P [Sub α] [Div α] [Neg α] [Trans α] (ofNat : Nat → α) (d : α) : Fin 4 → Fin 4 → α :=
+  let e := Trans.exp (-(ofNat 4) / ofNat 3 * d)
+  let a := ofNat 1 / ofNat 4 + ofNat 3 / ofNat 4 * e
+  let b := ofNat 1 / ofNat 4 - ofNat 1 / ofNat 4 * e
+  fun s j => if s = j then a else b
+
 /-! ### reported log-likelihood: `Σ_p w_p · log(siteLik p)` -/
 
 def logLik [Trans α] (liks : List α) (weights : List α) : α :=
